@@ -205,6 +205,26 @@ func ruleFieldBij(r *Run) {
 		r.Check("field-bij", pk+":no-rounding-on-read", gi.pos.Pos(), bad == "",
 			fmt.Sprintf("GetPageSettings computes %s from the stored twips; %s", pk, map[bool]string{true: "the value is converted, not rounded", false: "it is rounded on the way (" + bad + "): every read-modify-write setter then writes the rounded value back, so a call that names another field changes this one by up to the rounding step"}[bad == ""]))
 	}
+	// (1c) what SetPageSettings writes comes from the request: the VALUE stored into a section
+	// attribute does not flow from the document's current settings (a read of the section XML, a call
+	// of GetPageSettings).  "Unspecified → keep the current value" heuristics (all margins 0, both
+	// distances 0) make a call that names the attribute with that very value a no-op.
+	for _, x := range keysOfInfo(setM) {
+		si := setM[x]
+		st, ok := si.pos.(*ssa.Store)
+		if !ok {
+			continue
+		}
+		bad := ""
+		dres := dsl.Slice(st.Val)
+		if dres.callsTo("GetPageSettings") {
+			bad = "the result of GetPageSettings"
+		} else if fr := dres.fieldsReadOf(p, xmlOwners); len(fr) > 0 {
+			bad = "the current section attributes " + strings.Join(keysOf(fr), ", ")
+		}
+		r.Check("field-bij", x+":from-request", st.Pos(), bad == "",
+			fmt.Sprintf("SetPageSettings writes %s: %s", x, map[bool]string{true: "the value comes from the request only", false: "its value can flow from " + bad + " — for some request the attribute keeps its old value although the call named it (reading back does not return the most recent value)"}[bad == ""]))
+	}
 	// (2) every PageSettings field Set consumes is restored by Get
 	consumed := map[string]bool{}
 	for _, si := range setM {
